@@ -125,6 +125,14 @@ def run(P, R):
     ok = len(c) == 1 and [ast.unparse(a) for a in c[0].args] == ['identifier', 'payload', 'False']
     R.check(r2, ok, 'an instance loss is a report for that instance only', 'resynth|invalidate', u.loc(),
             'invalidate_identifier does not go through update_info(identifier, payload, False)')
+    # the synthetic report overwrites what the entry said of the last exit: FATAL, and not an expected exit (the entry
+    # is updated key by key, a key left out keeps the value of the last real event)
+    dicts = [d for d in own_nodes(u.node) if isinstance(d, ast.Dict)]
+    got = {k.value: ast.unparse(v) for d in dicts for k, v in zip(d.keys, d.values) if isinstance(k, ast.Constant)}
+    ok = got.get('state') == 'ProcessStates.FATAL' and got.get('expected') == 'False' and 'spawnerr' in got
+    R.check(r2, ok, 'the report synthesised for a lost instance is FATAL, unexpected, with a reason',
+            'resynth|invalidate|payload', u.loc(), 'invalidate_identifier builds the payload %s: state must be FATAL, '
+            'expected False (else the entry keeps the `expected` of the last real event) and spawnerr the reason' % got)
     fw = set()
     for uu in list(PS.methods.values()) + list(PS.setters.values()):
         for a in own_nodes(uu.node):
@@ -151,6 +159,9 @@ def run(P, R):
         {tuple(f) for f in fm.at(adds[0])} == run_f | {('self.stopped()', False)} and \
         {tuple(f) for f in fm.at(repl[0])} == run_f | {('self.stopped()', True)} and \
         ast.unparse(repl[0].value) == '{identifier}' and ast.unparse(adds[0].args[0]) == 'identifier'
+    # (a process that is stopped has no running identifier left - R3 classify|stopped - so adding is enough)
+    ok = ok or (len(adds) == 1 and not repl and {tuple(f) for f in fm.at(adds[0])} == run_f and
+                ast.unparse(adds[0].args[0]) == 'identifier')
     R.check(r3, ok, 'a running-like report lists the instance (alone if the process was stopped)', 'classify|running',
             u.loc(), 'update_status adds/replaces the identifier under %s / %s' %
             ([sorted(tuple(f) for f in fm.at(c)) for c in adds], [sorted(tuple(f) for f in fm.at(c)) for c in repl]))
